@@ -37,6 +37,9 @@ box_str = z3.Function('box_str', Str, Ref)
 str_truthy = z3.Function('str_truthy', Str, B)
 
 EMPTY = z3.K(Ref, False)
+aslist_len = z3.Function('aslist_len', Ref, I)        # what list(x) yields for an arbitrary iterable x
+aslist_items = z3.Function('aslist_items', Ref, SeqV)
+rank = z3.Function('rank', Ref, I)                    # nesting rank of a (finitely nested) argument structure
 nonempty = z3.Function('nonempty', SetV, B)     # named so that equal set values are equi-nonempty by congruence
 
 
